@@ -386,7 +386,7 @@ PROPS["C12"] = {
                        "detect (1, 2 or 3 bit flips; bursts of 2..32 bits with both end bits set) aimed at any data block or the index "
                        "block, inside the checksum field or the stored payload. Observed in forked children: iteration with "
                        "verify_checksums may return only the entries of the blocks before the damaged one and must then stop abnormally; "
-                       "mtbl_source_get of a key in the damaged block returns nothing; mtbl_verify (linked-in main, and the real binary on a "
+                       "mtbl_source_get of a key in the damaged block returns nothing; an iterator (iter / get_range / get_prefix) first positioned beyond the damaged block and then seeked back into it returns nothing from it and stops; mtbl_verify (linked-in main, and the real binary on a "
                        "sample) must not print OK / exit 0; the intact file verifies and reads completely. Thorough tier additionally flips "
                        "EVERY single bit of every block of three small files (exhaustive)."),
         "level_note": TRUST + " Only patterns within the CRC's guaranteed detection class are injected, and never the length prefix.",
@@ -398,7 +398,7 @@ PROPS["C12"] = {
              "three observation paths). mode allbits: each single-bit flip of the checksum+payload region of every block of three fixed "
              "files is one evaluation (distinct by construction; the quick tier takes every 16th bit)."),
     "expect_tags": ["index_block_damaged", "last_data_block_damaged", "data_block_damaged", "burst", "flips_1", "flips_2", "flips_3",
-                    "multi_block", "intact_checked"],
+                    "multi_block", "intact_checked", "seek_back_into_damaged_block"],
     "assumptions": TABLE_ASSUME,
     "tiers": {
         "quick": [{"mode": "allbits", "kv": {"files": 3, "stride": 16}}, {"mode": "rc", "cases": 250, "max_size": 100}],
